@@ -18,6 +18,7 @@ Trace == ndJsonDeserialize(TraceFile)
 
 M_Users      == {"u1", "u2", "u3", "u4", "kc", "self"}   \* "self": the Balance contract's own address (no witness exists)
 M_LockSeq    == <<"l1", "l2", "l3", "l4", "l5", "l6">>
+M_LockSeqMany == [i \in 1..40 |-> "l" \o ToString(i)]     \* the many-locks pass (BalanceTraceMany.cfg)
 
 EvOf(r) == Event(r.act, ToSet(r.S), r.a, r.b, r.amt, r.x, r.res, r.ret, r.ntf)
 AccOf(o) == [a \in Acc |-> [ex |-> o.acc[a].ex, bal |-> o.api[a], until |-> o.acc[a].until, parent |-> o.acc[a].parent]]
